@@ -3,7 +3,8 @@ package shared
 import (
 	"fmt"
 	"sync"
-	"time"
+
+	"github.com/relex/slog-agent/util/vhook"
 )
 
 type chunkIDGenerator struct {
@@ -26,7 +27,7 @@ func newChunkIDGenerator(suffix string) *chunkIDGenerator {
 // The sequence number is incremented by one every time until the time is changed
 func (generator *chunkIDGenerator) Generate() string {
 	generator.Lock()
-	nextTimestamp := time.Now().UnixNano()
+	nextTimestamp := vhook.NowNano()
 	if nextTimestamp > generator.epochNano {
 		generator.epochNano = nextTimestamp
 		generator.sequence = 0
